@@ -80,6 +80,12 @@ impl RitiContext {
             .borrow_mut()
             .backspace_event(ctrl, &self.data, &self.config)
     }
+
+    /// Verification hook: a canonical dump of the method's private state.
+    #[cfg(feature = "verif")]
+    pub fn verif_state(&self) -> String {
+        self.method.borrow().verif_state()
+    }
 }
 
 pub(crate) trait Method {
@@ -96,6 +102,8 @@ pub(crate) trait Method {
     fn ongoing_input_session(&self) -> bool;
     fn finish_input_session(&mut self);
     fn backspace_event(&mut self, ctrl: bool, data: &Data, config: &Config) -> Suggestion;
+    #[cfg(feature = "verif")]
+    fn verif_state(&self) -> String;
 }
 
 impl dyn Method {
